@@ -96,6 +96,9 @@ def norm_model(w):
 def norm_obs(obs, names, uni):
     """the adapter's projection in the shape of the specification's wallet record (uni = a model wallet, for the key universe)"""
     extra = []
+    if "desc" not in obs:
+        obs = dict(desc=[], active={}, book=[], locked=[], txs=[], flags="0", nmkeys=0, bestblock=-1, orderpos=-1, islocked=False)
+        extra.append("no wallet loaded")
     w = dict(desc={d: dict(present=False, next=0, range=0) for d in uni["desc"]}, key={d: "none" for d in uni["key"]},
              active={s: "none" for s in uni["active"]}, name={x: "none" for x in uni["name"]}, purpose={x: "none" for x in uni["purpose"]},
              locked={c: "no" for c in uni["locked"]}, tx={t: "none" for t in uni["tx"]}, flags={f: False for f in uni["flags"]})
@@ -159,6 +162,9 @@ def run_behaviour(ctx, binary, bi, acts, rows, quick, stride):
     sess = W.Session(ctx, binary, dict(keypool=KEYPOOL, steps=[to_op(a) for _, a in steps]), tag)
     ctx.log("%s: session done (%d syscalls)" % (tag, len(sess.calls)))
     try:
+        if sess.abort and "step" in sess.abort:
+            mism.append(dict(beh=bi, step=sess.abort["step"], a=sess.abort.get("action") or ["?"], why="the process aborted inside the call (%s)" % sess.abort.get("why", "")[-80:]))
+            return lines, mism, stats
         if sess.out["load"] != "ok" or sess.aborted:
             raise vflib.InfraError("workload session failed: %s" % sess.out["load"])
         mut = sess.mutating_points()
